@@ -194,6 +194,20 @@ let check_table acc st ~props ~klass ~(table_json : unit -> json) ~(path : strin
      | None -> ()
      | Some rd ->
        let hist k ops = run_history acc ~props ~table_json ~es:esa ~src ~rd k ops in
+       (* the hypothesis of T11_legal_tables / T02_lookups / T03c: the table passes the
+          extracted structural check, and the entries the theorems speak about are the
+          entries that were written / encoded *)
+       bump acc "table_check_runs";
+       (match table_check dec rd with
+        | Some ((_, _), bl) ->
+          let got = List.concat_map (fun (b, _) -> List.map (fun e -> (string_of_nl e.pe_key, string_of_nl e.pe_val)) b.ab_entries) bl in
+          if got <> es then
+            fail acc ~kind:"model_mismatch" ~what:"[C01,C02,C03,C11] table_check accepts the table but its entry list is not what was written" (table_json ())
+        | None ->
+          if es <> [] then
+            fail acc ~kind:"model_mismatch" ~what:"[C01,C02,C03,C11] table_check (hypothesis of the reader theorems) rejects a table that was written by the writer / a legal encoder" (table_json ())
+          else if index_keys rd <> [] then
+            fail acc ~kind:"model_mismatch" ~what:"[C01,C11] empty table with a non-empty index" (table_json ()));
        (* C01: full iteration *)
        hist Iter (nexts (Array.length esa + 2));
        if with_dump then begin
